@@ -14,13 +14,24 @@ def check_C24(tier, seed):
     res.add_tlc(r)
     if not r["ok"]: raise ToolError("Threads.tla: a property fails on the model itself:\n" + r["out"][-2500:])
     insts = [i for i in universe.semantic_universe("quick", seed + 2400) if i["schema"]["name"] == "VS1"]
+    # queries whose filters take their argument from a tag that differs from row to row (every string / membership / ordering operator):
+    # anything the engine caches per argument value must not be shared between executions
+    import foldfam, lib as GL
+    sc1 = GL.VS1(); tg = foldfam.fold_graph(sc1, 5)
+    tagged = []
+    for op, pn in [("regex", "name"), ("not_regex", "name"), ("has_prefix", "name"), ("has_substring", "name"), ("=", "name"), ("<", "val"), ("one_of", None), ("contains", None)]:
+        if op == "one_of": root, inner = GL.prop_node("tags", tags=["p"]), GL.prop_node("val", outputs=["v"], filters=[GL.FTag("one_of", "p")])
+        elif op == "contains": root, inner = GL.prop_node("val", tags=["p"]), GL.prop_node("tags", outputs=["v"], filters=[GL.FTag("contains", "p")])
+        else: root, inner = GL.prop_node(pn, tags=["p"]), GL.prop_node(pn, outputs=["v"], filters=[GL.FTag(op, "p")])
+        q = GL.edge_node("Nodes", props=[GL.prop_node("id", outputs=["rid"]), root], edges=[GL.edge_node("next", "plain", props=[inner], edges=[GL.edge_node("next", "optional", props=[GL.prop_node("id", outputs=["d"])])])])
+        tagged.append(GL.make_instance(0, sc1, tg, q, {}, cls={"family": "tagged_filter_race", "op": op}))
     nproc = 24 if tier == "quick" else 300
     per = 12
     import random
     rng = random.Random(seed)
     bad_total = []; nexec = 0; procs = []
     def launch(k):
-        part = rng.sample(insts, per)
+        part = rng.sample(insts, per - 4) + rng.sample(tagged, 4)
         ip, op = os.path.join(wd, f"t.{k}.ndjson"), os.path.join(wd, f"t.{k}.json")
         write_ndjson(ip, part)
         return subprocess.Popen([VH, "threads", ip, op, "8"], stderr=subprocess.PIPE, text=True), op, part
@@ -39,7 +50,7 @@ def check_C24(tier, seed):
     res.cov["evaluations"] = nproc * per * 8
     res.cov["distinct_nontrivial"] = nexec
     res.cov["rule"] = (f"{nproc} fresh processes; in each, 8 threads released by a barrier (so that every lazily initialised static is raced for) parse the schema, share the first published Arc<Schema>, compile {per} queries concurrently "
-                       "against it, share the first published Arc<IndexedQuery> of each, and execute it; every thread's serialized IR and rows must equal the sequential ones computed afterwards. The harness only compiles if Schema, IndexedQuery, "
+                       "against it, share the first published Arc<IndexedQuery> of each, and execute it (each thread in its own rotation of the queries, then 6 more executions of every shared compiled query in scrambled order; 4 of the queries per process filter on a tag that differs from row to row); every thread's serialized IR and rows must equal the sequential ones computed afterwards. The harness only compiles if Schema, IndexedQuery, "
                        "IRQuery, Type and FieldValue are Send + Sync. Model: TLC checks Threads.tla (3 threads, 3 once-cells, 2 operations) - every interleaving yields the sequential results. distinct non-trivial = (process, query) pairs actually executed")
     res.assumptions += ["no schedule of the real threads is observable: this is final-state conformance only"]
     res.notes["model_states"] = r["distinct"]
@@ -74,7 +85,13 @@ def naming_schemas(tier):
     sch("lowercase_type", [base("thing"), base("other_thing")])
     sch("vertex_named_vertex", [base("Vertex"), base("Adapter")])
     sch("names_like_std", [base("Option"), base("Some"), base("Box"), base("Vec")])
-    if tier == "quick": S = [s for s in S if s[0] in ("plain", "consecutive_capitals_type", "case_only_type_collision", "keyword_fields", "entrypoints_case_collision", "digit_in_type", "type_and_type_underscore", "feature_mix_parameters_of_every_type")]
+    # edge PARAMETER names: they become bindings of the generated resolver functions
+    sch("parameter_names_differing_by_case", [base("Thing", edges=(("peer", "Thing", "maxItems: Int, max_items: Int!, MaxItems: String"),))])
+    sch("parameter_names_keywords", [base("Thing", edges=(("peer", "Thing", "type: Int, match: String, fn: [Int!], async: Boolean"), ("other", "Thing", "self: Int, Self: Int")))])
+    sch("parameter_name_keyword_and_its_escape", [base("Thing", edges=(("peer", "Thing", "type: Int, type_: Int!"),))])
+    sch("parameter_names_like_locals", [base("Thing", edges=(("peer", "Thing", "contexts: Int, adapter: String, parameters: Int, resolve_info: Int, edge_name: String"),))])
+    if tier == "quick": S = [s for s in S if s[0] in ("plain", "consecutive_capitals_type", "case_only_type_collision", "keyword_fields", "entrypoints_case_collision", "digit_in_type", "type_and_type_underscore", "feature_mix_parameters_of_every_type",
+                                                         "parameter_names_differing_by_case", "parameter_names_keywords")]
     return S
 
 FEATURE_SDL = """schema { query: RootQ }
@@ -116,7 +133,7 @@ def naming_sdl(types, entries):
     for n, props, edges in types:
         out.append(f"type {n} {{")
         for k, p in enumerate(props): out.append(f"  {p}: " + ["Int!", "String", "[Float!]", "Boolean", "[String]!"][k % 5])
-        for en, tgt in edges: out.append(f"  {en}(min: Int): [{tgt}!]")
+        for ed in edges: out.append(f"  {ed[0]}({ed[2] if len(ed) > 2 else 'min: Int'}): [{ed[1]}!]")
         out.append("}")
     return "\n".join(out) + "\n"
 
@@ -134,7 +151,7 @@ def check_C26(tier, seed):
         feat = {"types": [{"name": list("Thing"), "fields": [list(x) for x in ("id", "name", "scores", "grid", "flags", "labels", "comment", "tagged", "near", "plain")], "edges": [list(x) for x in ("comment", "tagged", "near", "plain")]},
                           {"name": list("Other"), "fields": [list("name"), list("back")], "edges": [list("back")]}, {"name": list("Named"), "fields": [list("name")], "edges": []},
                           {"name": list("Empty"), "fields": [list("self_")], "edges": [list("self_")]}], "entries": [list("Things"), list("Other"), list("Empties")]}
-        cases = [{"id": k + 1, "names": feat} if t == "FEATURES" else {"id": k + 1, "names": {"types": [{"name": list(n), "fields": [list(p) for p in props] + [list(en) for en, _ in edges], "edges": [list(en) for en, _ in edges]} for n, props, edges in t], "entries": [list(x) for x in e]}} for k, (l, t, e) in enumerate(schemas)]
+        cases = [{"id": k + 1, "names": feat} if t == "FEATURES" else {"id": k + 1, "names": {"types": [{"name": list(n), "fields": [list(p) for p in props] + [list(ed[0]) for ed in edges], "edges": [list(ed[0]) for ed in edges]} for n, props, edges in t], "entries": [list(x) for x in e]}} for k, (l, t, e) in enumerate(schemas)]
         p = os.path.join(wd, "judge.ndjson"); write_ndjson(p, cases)
         r = tlc("JudgeStubgen", "JudgeStubgen.cfg", {"INST": p}, wd, workers=4, timeout=900)
         res.add_tlc(r)
